@@ -689,7 +689,7 @@ fn simplify(evs: Vec<Ev>) -> Vec<Ev> {
 
 pub fn run(repo: &str, out: &str) {
     let mut db = Db { fns: BTreeMap::new() };
-    for f in ["mls-rs/src/group/message_processor.rs", "mls-rs/src/group/mod.rs", "mls-rs/src/group/ciphertext_processor.rs", "mls-rs/src/group/commit.rs"] {
+    for f in ["mls-rs/src/group/message_processor.rs", "mls-rs/src/group/mod.rs", "mls-rs/src/group/ciphertext_processor.rs", "mls-rs/src/group/commit.rs", "mls-rs/src/group/state_repo.rs"] {
         load(&mut db, repo, f);
     }
     // entry points: (coq name, container, fn, callees not followed)
@@ -698,6 +698,9 @@ pub fn run(repo: &str, out: &str) {
         ("ev_decrypt", "Group", "process_ciphertext", &[]),
         ("ev_commit_build", "Group", "commit_internal", &[]),
         ("ev_apply_pending", "Group", "apply_pending_commit", &[]),
+        ("ev_repo_write", "GroupStateRepository", "write_to_storage", &[]),
+        ("ev_repo_get", "GroupStateRepository", "get_epoch_mut", &[]),
+        ("ev_repo_insert", "GroupStateRepository", "insert", &[]),
     ];
     let mut s = String::new();
     s.push_str("(* GENERATED by rs2v effects from mls-rs/src/group/{message_processor,mod,ciphertext_processor,commit}.rs.\n   Do not edit: regenerated on every check. Line numbers are those of the source file of the\n   function in which the event occurs. *)\nFrom Coq Require Import NArith List String.\nFrom MlsV Require Import Effects.\nImport ListNotations.\nLocal Open Scope N_scope.\nLocal Open Scope string_scope.\n\n");
